@@ -27,8 +27,13 @@ func main() { core.Main("C02", run, replay) }
 
 type c02Case struct {
 	Gen    gen.Case `json:"gen"`
-	Copy   int      `json:"copy"`             // 0: written directly; 1: re-written through WriteRowGroup with the same options; 2: with different options
-	Layout bool     `json:"layout,omitempty"` // also compare the file with the model writer of File/Layout.v
+	// 0: written directly; re-written through Writer.WriteRowGroup from the row groups of the file 1: with the same
+	// options, 2: with the other page version / codec and a 300 byte page buffer, 3: with independently drawn options;
+	// 4: never written as a file: the rows go to parquet.Buffer row groups (one per Flush segment of the history),
+	// which are written through WriteRowGroup with independently drawn options
+	Copy   int    `json:"copy"`
+	Layout bool   `json:"layout,omitempty"` // also compare the file with the model writer of File/Layout.v
+	Shape  *shape `json:"shape,omitempty"`  // schema / value dimensions beyond the shared generator (shapes.go)
 }
 
 func expected(b *gen.Built, from, to int) (reps, defs, vals [][]string) {
@@ -56,30 +61,47 @@ func joinOr(l []string) string {
 
 func writeFile(b *gen.Built, cs c02Case) ([]byte, error) {
 	var buf bytes.Buffer
-	if err := b.Write(&buf); err != nil {
-		return nil, err
-	}
-	if cs.Copy == 0 {
-		return buf.Bytes(), nil
-	}
-	f, err := parquet.OpenFile(bytes.NewReader(buf.Bytes()), int64(buf.Len()))
-	if err != nil {
-		return nil, fmt.Errorf("reopen: %w", err)
-	}
-	opts := b.Opts
-	if cs.Copy == 2 {
-		opts.PageVersion = 3 - opts.PageVersion
-		opts.PageBuffer = 300
-		if opts.Codec == "snappy" {
-			opts.Codec = "none"
-		} else {
-			opts.Codec = "snappy"
+	var groups []parquet.RowGroup
+	if cs.Copy == 4 {
+		i := 0
+		cur := parquet.NewBuffer(b.Schema)
+		for _, h := range b.History {
+			if h < 0 {
+				if cur.NumRows() > 0 {
+					groups = append(groups, cur)
+					cur = parquet.NewBuffer(b.Schema)
+				}
+				continue
+			}
+			rows := make([]parquet.Row, h)
+			for j := range rows {
+				rows[j] = b.Rows[i+j].Clone()
+			}
+			if _, err := cur.WriteRows(rows); err != nil {
+				return nil, fmt.Errorf("buffer write rows: %w", err)
+			}
+			i += h
 		}
+		if cur.NumRows() > 0 || len(groups) == 0 {
+			groups = append(groups, cur)
+		}
+	} else {
+		if err := b.Write(&buf); err != nil {
+			return nil, err
+		}
+		if cs.Copy == 0 {
+			return buf.Bytes(), nil
+		}
+		f, err := parquet.OpenFile(bytes.NewReader(buf.Bytes()), int64(buf.Len()))
+		if err != nil {
+			return nil, fmt.Errorf("reopen: %w", err)
+		}
+		groups = f.RowGroups()
 	}
-	opts.MaxRows = 0
+	opts := copyOptions(b, cs)
 	var out bytes.Buffer
 	w := parquet.NewGenericWriter[any](&out, append([]parquet.WriterOption{b.Schema}, opts.WriterOptions(b.Root)...)...)
-	for _, rg := range f.RowGroups() {
+	for _, rg := range groups {
 		if _, err := w.WriteRowGroup(rg); err != nil {
 			return nil, fmt.Errorf("WriteRowGroup: %w", err)
 		}
@@ -91,8 +113,15 @@ func writeFile(b *gen.Built, cs c02Case) ([]byte, error) {
 }
 
 func check(c *core.Ctx, cs c02Case) (nontrivial bool, bucket string) {
-	b := cs.Gen.Build()
-	bucket = fmt.Sprintf("copy%d/v%d/%s", cs.Copy, b.Opts.PageVersion, b.Opts.Codec)
+	b := build(cs)
+	wopts := b.Opts // the options of the writer that produced the file
+	if cs.Copy != 0 {
+		wopts = copyOptions(b, cs)
+	}
+	bucket = fmt.Sprintf("copy%d/v%d/%s", cs.Copy, wopts.PageVersion, wopts.Codec)
+	if cs.Shape != nil {
+		bucket = cs.Shape.Kind + "/" + bucket
+	}
 	var data []byte
 	var werr error
 	p := func() (p string) {
@@ -114,14 +143,22 @@ func check(c *core.Ctx, cs c02Case) (nontrivial bool, bucket string) {
 	if !c.HasOracle() {
 		return len(b.Rows) >= 2, bucket
 	}
+	// limit of the extracted decoder, not of the format: it holds the footer as a Coq list (firstn / thrift reader
+	// recursion depth proportional to the footer length, native stack of 8 MB; time quadratic in the length).
+	// Files with hundreds of row groups times several columns are counted apart and not decoded.
+	if len(data) >= 12 {
+		if flen := int(uint32(data[len(data)-8]) | uint32(data[len(data)-7])<<8 | uint32(data[len(data)-6])<<16 | uint32(data[len(data)-5])<<24); flen > 128<<10 {
+			return false, "not-decoded:footer-above-128kB"
+		}
+	}
 	ans := c.Ask("c02.verify x" + hex.EncodeToString(data))
 	if ans == "UNPARSEABLE" || strings.HasPrefix(ans, "ERR") {
-		c.Violation("spec-decoder-rejects", fmt.Sprintf("the specification decoder cannot parse the file (%s); schema %s options %+v", ans, b.Root.Text(), b.Opts), cs)
+		c.Violation("spec-decoder-rejects", fmt.Sprintf("the specification decoder cannot parse the file (%s); schema %s options %+v", ans, b.Root.Text(), wopts), cs)
 		return true, bucket
 	}
 	parts := strings.SplitN(ans, " ", 2)
 	if parts[0] != "_" {
-		c.Violation("inconsistent:"+parts[0], fmt.Sprintf("what the footer / page headers claim does not match the bytes: %s; schema %s options %+v", parts[0], b.Root.Text(), b.Opts), cs)
+		c.Violation("inconsistent:"+parts[0], fmt.Sprintf("what the footer / page headers claim does not match the bytes: %s; schema %s options %+v", parts[0], b.Root.Text(), wopts), cs)
 		return true, bucket
 	}
 	from := 0
@@ -160,6 +197,7 @@ func check(c *core.Ctx, cs c02Case) (nontrivial bool, bucket string) {
 				c.Violation("decoded-definition-levels-differ", fmt.Sprintf("row group %d column %d (%s): definition levels %s, written %s", gi, ci, leaf.Text(), core.Trunc(f["D"], 200), core.Trunc(joinOr(defs[ci]), 200)), cs)
 				return true, bucket
 			}
+			dims.chunk(f, reps[ci], defs[ci])
 			if f["V"] != joinOr(vals[ci]) {
 				c.Violation("decoded-values-differ", fmt.Sprintf("row group %d column %d (%s, page encodings %s): values recovered by the specification decoder differ from the values written", gi, ci, leaf.Text(), f["E"]), cs)
 				return true, bucket
@@ -394,6 +432,73 @@ func layoutCheck(c *core.Ctx, cs c02Case, b *gen.Built, data []byte, groups []st
 	return "layout:differs"
 }
 
+// dimensions reached by the files that were decoded and compared (reported as a note)
+type dimensions struct {
+	defWidth, repWidth [9]int // column chunks by bit width of the levels, levels not all equal
+	longestRow         int    // most values of one column in one row
+	longRows           int    // rows of a column chunk holding more than 1024 values
+	mixedEncodings     int    // column chunks whose data pages use more than one encoding (dictionary fallback)
+	chunks             int
+}
+
+var dims dimensions
+
+func bitWidth(max int) int {
+	w := 0
+	for max > 0 {
+		w++
+		max >>= 1
+	}
+	return w
+}
+
+func (d *dimensions) chunk(f map[string]string, reps, defs []string) {
+	d.chunks++
+	widthOf := func(levels []string) int {
+		max, varied := 0, false
+		for _, l := range levels {
+			v, _ := strconv.ParseInt(l, 16, 32)
+			if int(v) > max {
+				max = int(v)
+			}
+			if l != levels[0] {
+				varied = true
+			}
+		}
+		if !varied {
+			return 0
+		}
+		return bitWidth(max)
+	}
+	if w := widthOf(defs); w > 0 && w <= 8 {
+		d.defWidth[w]++
+	}
+	if w := widthOf(reps); w > 0 && w <= 8 {
+		d.repWidth[w]++
+	}
+	run := 0
+	for _, r := range reps {
+		if r == "0" {
+			run = 0
+		}
+		run++
+		if run > d.longestRow {
+			d.longestRow = run
+		}
+		if run == 1025 {
+			d.longRows++
+		}
+	}
+	if e := strings.Split(f["E"], ","); len(e) > 1 {
+		for _, x := range e[1:] {
+			if x != e[0] {
+				d.mixedEncodings++
+				break
+			}
+		}
+	}
+}
+
 func joinSep(l []string, sep string) string {
 	if len(l) == 0 {
 		return "_"
@@ -424,30 +529,111 @@ func runCase(c *core.Ctx, cs c02Case, sample bool) {
 				break
 			}
 		}
+		if cs.Shape != nil {
+			// the shape: shorter lists, a shallower spine
+			try := func(f func(sh *shape) bool) {
+				for {
+					t := cs
+					sh := *cs.Shape
+					t.Shape = &sh
+					if !f(&sh) || !c.Probe(func() { check(c, t) }) {
+						return
+					}
+					cs = t
+				}
+			}
+			try(func(sh *shape) bool { sh.MaxLen /= 2; return sh.Kind == "long" && sh.MaxLen >= 1 })
+			try(func(sh *shape) bool { sh.MaxLen -= 1 + sh.MaxLen/16; return sh.Kind == "long" && sh.MaxLen >= 1 })
+			try(func(sh *shape) bool { ok := sh.Pad > 0; sh.Pad = 0; return sh.Kind == "deep" && ok })
+			try(func(sh *shape) bool {
+				sh.Def--
+				if sh.Rep > sh.Def {
+					sh.Rep = sh.Def
+				}
+				return sh.Kind == "deep" && sh.Def >= 1
+			})
+			try(func(sh *shape) bool { sh.Rep--; return sh.Kind == "deep" && sh.Rep >= 0 })
+		}
 		nontrivial, bucket = check(c, cs)
 	}
 	key, _ := json.Marshal(cs)
 	c.Case(bucket, string(key), nontrivial)
 	if sample {
-		b := cs.Gen.Build()
+		b := build(cs)
 		c.Sample(map[string]any{"case": cs, "schema": b.Root.Text(), "options": b.Opts})
 	}
 }
 
 func run(c *core.Ctx) {
-	c.Res.Rule = "files written from generated schemas / value trees / options / Write-Flush histories (see C01), directly or re-written through Writer.WriteRowGroup with equal or different options (copy, re-encode paths); codecs UNCOMPRESSED and SNAPPY (the codecs the Gallina decoder implements). Each file's raw bytes go to the extracted specification decoder, which must (1) parse them, (2) find every claimed offset, size, count, checksum, encoding list and row boundary consistent with the bytes (discrepancy codes), (3) return, per row group and column, exactly the repetition levels, definition levels and values that were written. (4) Layout: the page structure observed in the file (raw page headers and bodies found by walking each chunk with the library's thrift decoder, rows per data page as counted by the specification decoder, bloom filter / column index sections, and the footer for the fields that are not offsets, sizes or counts) is given to the model writer File/Layout.v (offset accounting of writer.go; C02_layout_sound_*: its recorded offsets and sizes provably describe its bytes), which must reproduce the library's file byte for byte; a differing offset / size / count of the metadata is the property failing (layout:<field>), any other byte difference a model mismatch; the bucket suffix says whether the decidable hypothesis file_ok of the layout theorems held for the file (footers above 24 kB are left out in the quick tier: the Gallina thrift reader is quadratic). Non-trivial = at least 2 rows; distinct by the JSON of the case."
+	c.Res.Rule = "files written from generated schemas / value trees / options / Write-Flush histories (see C01), directly (copy0), re-written through Writer.WriteRowGroup from the row groups of the written file with equal (copy1), opposite (copy2: other page version and codec, 300 byte page buffer) or independently drawn options (copy3), or never written directly: rows put in parquet.Buffer row groups handed to WriteRowGroup (copy4) (verbatim copy, column-wise re-encode and row paths); codecs UNCOMPRESSED and SNAPPY (the codecs the Gallina decoder implements). Besides the shared generator (nesting depth <= 3, lists <= 24 elements; DictionaryMaxBytes 16..415 in a quarter of the files, so dictionary -> PLAIN fallback inside a chunk occurs) two families of shapes (harness/c02/shapes.go): deep = a spine of nested optional/repeated/required groups with side leaves, the maximum definition level of the deepest column sweeping the level bit widths 1..8 in turn (maximum level in [2^(w-1), 2^w-1], up to 255), repetition levels none / few / any width up to w / width w, null and list-length probabilities scaled to the depth so that levels vary inside groups of 8; long = one repeated field (repeated leaf, repeated group, LIST) whose lists hold up to 300..6000 values (20000 in the thorough tier; lengths spread over the orders of magnitude and around the powers of two) in a third of the rows, next to short rows, with page buffers from 64 bytes. The note of the run lists the bit widths, row lengths and mixed-encoding chunks actually reached. Each file's raw bytes go to the extracted specification decoder, which must (1) parse them, (2) find every claimed offset, size, count, checksum, encoding list, encoding_stats entry ((page type, encoding) counts against the page headers present) and row boundary (v2 pages, and every data page of a chunk that has an offset index, start with repetition level 0) consistent with the bytes (discrepancy codes), (3) return, per row group and column, exactly the repetition levels, definition levels and values that were written. (4) Layout: the page structure observed in the file (raw page headers and bodies found by walking each chunk with the library's thrift decoder, rows per data page as counted by the specification decoder, bloom filter / column index sections, and the footer for the fields that are not offsets, sizes or counts) is given to the model writer File/Layout.v (offset accounting of writer.go; C02_layout_sound_*: its recorded offsets and sizes provably describe its bytes), which must reproduce the library's file byte for byte; a differing offset / size / count of the metadata is the property failing (layout:<field>), any other byte difference a model mismatch; the bucket suffix says whether the decidable hypothesis file_ok of the layout theorems held for the file (footers above 24 kB are left out in the quick tier: the Gallina thrift reader is quadratic; files whose footer exceeds 128 kB are not decoded at all, bucket not-decoded:*, the extracted decoder's recursion depth grows with the footer length). Non-trivial = at least 2 rows; distinct by the JSON of the case."
 	n := c.N(250, 4000)
 	for i := 0; i < n; i++ {
 		cs := c02Case{Gen: gen.Case{Seed: c.Seed*999983 + int64(i), NRows: []int{0, 1, 5, 40, 130, 300}[c.Rng.Intn(6)], MaxDepth: 1 + c.Rng.Intn(3), MaxFields: 1 + c.Rng.Intn(5), Codecs: []string{"none", "snappy"}, NullBias: c.Rng.Intn(8)}}
-		switch c.Rng.Intn(5) {
+		switch c.Rng.Intn(8) {
 		case 0:
 			cs.Copy = 1
-		case 1:
+		case 1, 2:
 			cs.Copy = 2
+		case 3:
+			cs.Copy = 3
+		case 4:
+			cs.Copy = 4
 		}
 		cs.Layout = true
 		runCase(c, cs, i < 3)
 	}
+	// deep schemas: the level bit widths 1..8 in turn (maximum level of the deepest column in
+	// [2^(w-1), 2^w-1]); repetition levels none / few / as wide as the definition levels
+	copyOf := func(weights [5]int) int {
+		t := 0
+		for _, x := range weights {
+			t += x
+		}
+		r := c.Rng.Intn(t)
+		for i, x := range weights {
+			if r < x {
+				return i
+			}
+			r -= x
+		}
+		return 0
+	}
+	for i, n := 0, c.N(48, 320); i < n; i++ {
+		w := 1 + i%8
+		sh := &shape{Kind: "deep", Def: 1<<(w-1) + c.Rng.Intn(1<<(w-1))}
+		switch (i / 8) % 3 {
+		case 0:
+			sh.Rep = c.Rng.Intn(3)
+		case 1:
+			wr := 1 + c.Rng.Intn(w)
+			sh.Rep = 1<<(wr-1) + c.Rng.Intn(1<<(wr-1))
+		case 2:
+			sh.Rep = 1<<(w-1) + c.Rng.Intn(1<<(w-1))
+		}
+		if sh.Rep > sh.Def {
+			sh.Rep = sh.Def
+		}
+		if sh.Pad = c.Rng.Intn(4); sh.Def+sh.Pad > parquet.MaxColumnDepth {
+			sh.Pad = parquet.MaxColumnDepth - sh.Def
+		}
+		nrows := []int{1, 5, 40, 130}
+		if w >= 7 {
+			nrows = []int{1, 5, 40}
+		}
+		cs := c02Case{Gen: gen.Case{Seed: c.Seed*1000003 + int64(i), NRows: nrows[c.Rng.Intn(len(nrows))], Codecs: []string{"none", "snappy"}, NullBias: c.Rng.Intn(8)},
+			Shape: sh, Copy: copyOf([5]int{4, 1, 1, 1, 1}), Layout: true}
+		runCase(c, cs, i < 1)
+	}
+	// long rows: lists of hundreds to thousands of values below one repeated field, written directly
+	// and through every WriteRowGroup path
+	for i, n := 0, c.N(32, 200); i < n; i++ {
+		sh := &shape{Kind: "long", MaxLen: []int{300, 1100, 2100, 2100, 4200, c.N(6000, 20000)}[c.Rng.Intn(6)]}
+		cs := c02Case{Gen: gen.Case{Seed: c.Seed*1000033 + int64(i), NRows: []int{1, 3, 8, 20}[c.Rng.Intn(4)], MaxDepth: 1, MaxFields: 2, Codecs: []string{"none", "snappy"}, NullBias: c.Rng.Intn(6)},
+			Shape: sh, Copy: copyOf([5]int{2, 1, 2, 2, 1}), Layout: true}
+		runCase(c, cs, i < 1)
+	}
+	c.Note("dimensions reached by the %d column chunks decoded and compared: definition levels varying within a chunk by bit width 1..8: %v; repetition levels: %v; longest row of one column: %d values, %d rows above 1024 values; %d chunks whose data pages use more than one encoding (dictionary fallback)",
+		dims.chunks, dims.defWidth[1:], dims.repWidth[1:], dims.longestRow, dims.longRows, dims.mixedEncodings)
 	// thrift: decode(encode) on the footers is exercised by every file; additionally the
 	// re-encoding of every decoded footer must reproduce the bytes Go wrote
 	for i := 0; i < c.N(40, 400); i++ {
